@@ -86,6 +86,14 @@ def _index(layout, n):
         return pd.Index([10 + 3 * i for i in range(n)], name="cyc"), []
     if layout == "multi":
         return pd.MultiIndex.from_tuples([(1 + i % 2, i) for i in range(n)], names=["node", "cyc"]), ["node"]
+    # repeated index labels: two load blocks put together with pd.concat without ignore_index
+    h = max(1, (n + 1) // 2)
+    if layout == "dup_plain":
+        return pd.Index([i % h for i in range(n)]), []
+    if layout == "dup_named":
+        return pd.Index([10 + 3 * (i % h) for i in range(n)], name="cyc"), []
+    if layout == "dup_multi":
+        return pd.MultiIndex.from_tuples([(1 + (i % h) % 2, (i % h) // 2) for i in range(n)], names=["node", "cyc"]), ["node"]
     return pd.MultiIndex.from_tuples([(1 + i % 2, 5 + (i // 2) % 2, i) for i in range(n)], names=["node", "element", "cyc"]), ["node", "element"]
 
 
@@ -105,7 +113,7 @@ def _collectives(draw, nmin=1, nmax=8, cycles=True):
     cyc = None
     if cycles and draw(st.booleans()):
         cyc = draw(st.lists(st.one_of(st.integers(0, 1000).map(float), st.floats(0.0, 1e6, allow_nan=False)), min_size=n, max_size=n))
-    layout = draw(st.sampled_from(["plain", "named", "multi", "multi3"]))
+    layout = draw(st.sampled_from(["plain", "named", "multi", "multi3", "dup_plain", "dup_named", "dup_multi"]))
     ints = draw(st.integers(0, 3)) == 0
     if ints:                                   # integer valued collective stored in int64 columns
         a = [float(round(x)) + 0.0 for x in a]
@@ -214,8 +222,15 @@ def collective_consistent(case, ctx):
         ctx.nontrivial()
     if groups:
         ctx.nontrivial()
+    if not df0.index.is_unique:
+        ctx.label("repeated_index_labels")
+        ctx.nontrivial()
     if any(u == 0.0 for u in up):
         ctx.label("upper_zero")
+    held = lc.to_pandas()
+    if len(held) != len(df0) or not held.index.equals(df0.index):
+        raise Violation("the %s collective holds %d rows (index %r) for the %d rows it was made from (index %r)"
+                        % (case["form"], len(held), list(held.index)[:8], len(df0), list(df0.index)[:8]), bucket="collective:rows")
     got = {"amplitude": lc.amplitude, "meanstress": lc.meanstress, "upper": lc.upper, "lower": lc.lower, "R": lc.R, "cycles": lc.cycles}
     want = {"amplitude": amp, "meanstress": mean, "upper": up, "lower": lo, "R": R,
             "cycles": case["cycles"] if case["cycles"] is not None else [1.0] * len(amp)}
@@ -264,6 +279,8 @@ def _scale_shift_cases(draw, tier):
     c = draw(_collectives(nmin=2))
     op = draw(st.sampled_from(["scale", "shift"]))
     kind = draw(st.sampled_from(["scalar", "scalar", "aligned", "cross", "same_index"]))
+    if c["layout"].startswith("dup_"):
+        kind = "scalar"            # Series operands are matched by label, which needs unique labels
     val = st.one_of(st.sampled_from([0.0, 1.0, -1.0, 2.0, 0.5, -3.0]), st.floats(-1e3, 1e3, allow_nan=False).map(lambda x: x + 0.0))
     scalar_type = "float"
     if kind == "scalar":
@@ -300,12 +317,18 @@ def collective_scale_shift(case, ctx):
     n = len(fr)
     kind, op = case["operand_kind"], case["op"]
     ctx.label(op, kind, case["form"], case["layout"], "int64_columns" if str(df0.dtypes.iloc[0]).startswith("int") else "float_columns")
+    dup = not df0.index.is_unique
+    if dup:
+        ctx.label("repeated_index_labels")
+        ctx.nontrivial()
     if kind == "scalar":
         operand = case["operand"][0]
         stype = case.get("scalar_type", "float")
         operand = {"float": float, "np.float64": np.float64, "int": int, "np.int64": np.int64}[stype](operand)
         ctx.label("scalar:" + stype)
         rows = [(i, float(operand), tuple(df0.index[i]) if isinstance(df0.index[i], tuple) else (df0.index[i],)) for i in range(n)]
+        if dup:     # rows are identified by position (and must carry the labels of the collective in its order)
+            rows = [(i, v, (i,)) for i, v, _ in rows]
     elif kind == "same_index":
         operand = pd.Series(case["operand"], index=df0.index, dtype=float)
         rows = [(i, case["operand"][i], tuple(df0.index[i]) if isinstance(df0.index[i], tuple) else (df0.index[i],)) for i in range(n)]
@@ -354,6 +377,11 @@ def collective_scale_shift(case, ctx):
             raise Violation("result index levels %r, expected %r" % (list(idx.names), names), bucket="scale_shift:levels")
         idx = idx.reorder_levels(names)
     A, Mn, Cy = res.amplitude.values, res.meanstress.values, res.cycles.values
+    if dup:
+        if not out.index.equals(df0.index):
+            raise Violation("%s(scalar) of a collective with repeated index labels: result index %r, collective %r"
+                            % (op, list(out.index)[:8], list(df0.index)[:8]), bucket="scale_shift:index")
+        idx = [(i,) for i in range(len(out))]
     for pos, key in enumerate(idx):
         key = key if isinstance(key, tuple) else (key,)
         if key in got:
@@ -587,8 +615,8 @@ def _histogram_cases(draw, tier):
             bins = sorted(set(bins))
         if len(bins) < 3:                 # one class is the 'single' specification
             bins = [bins[0], bins[0] + 1.0, bins[0] + 2.5]
-    layout = draw(st.sampled_from(["plain", "multi", "multi3"]))
-    axis = draw(st.sampled_from([None, "cyc"])) if layout != "plain" else None
+    layout = draw(st.sampled_from(["plain", "multi", "multi3", "dup_plain", "dup_multi"]))
+    axis = draw(st.sampled_from([None, "cyc"])) if layout not in ("plain", "dup_plain") else None
     weights = draw(st.sampled_from(["none", "none", "ones", "weighted"]))
     return {"range": rng, "mean": mean, "spec": spec, "bins": bins, "single_as": single_as, "layout": layout, "axis": axis,
             "weights": weights, "form": draw(st.sampled_from(["range_mean", "from_to"]))}
@@ -636,6 +664,14 @@ def collective_histogram(case, ctx):
     # what pyLife histograms: its own range and mean
     R2 = [float(x) for x in (lc.amplitude * 2.0).values]
     MN = [float(x) for x in lc.meanstress.values]
+    # ... which must be the collective it was given: one range/mean per row (any index layout, repeated labels included)
+    tolr = _atol(rng, mean)
+    if len(R2) != n or not _same(R2, rng, tolr) or not _same(MN, mean, tolr):
+        raise Violation("the collective holds ranges %r / means %r for the %d rows range %r / mean %r it was made from (index %r)"
+                        % (R2[:8], MN[:8], n, list(rng)[:8], list(mean)[:8], list(df.index)[:8]), bucket="histogram:collective_rows")
+    if not df.index.is_unique:
+        ctx.label("repeated_index_labels")
+        ctx.nontrivial()
     spec, bins = case["spec"], case["bins"]
     if spec == "intervals":
         barg = pd.IntervalIndex.from_breaks(bins)
@@ -695,6 +731,23 @@ def collective_histogram(case, ctx):
     if h2 is not None:
         _same_result(h2, df.load_collective.histogram(barg, axis).to_pandas(), "histogram")
     _same_result(amp_before, lc.amplitude, "amplitude read before/after histogramming")
+    if axis is None and case["weights"] != "weighted" and len(h1) >= 1:
+        # the integer-count range histogram fed straight into rebin_histogram: every class split into halves or thirds
+        # (shares are fractions), and a number of bins - the total stays the number of counted cycles
+        from pylife.utils.histogram import rebin_histogram
+        e = [float(h1.index[0].left)] + [float(iv.right) for iv in h1.index]
+        k = 2 + (n % 2)
+        fine = sorted(set(a + (b - a) * j / k for a, b in zip(e[:-1], e[1:]) for j in range(k)) | {e[-1]})
+        tot = float(h1.sum())
+        for target in (pd.IntervalIndex.from_breaks(fine), 2 * len(h1) + 1):
+            with warnings.catch_warnings():
+                warnings.simplefilter("ignore")
+                rb = rebin_histogram(h1, target)
+            if abs(float(rb.sum()) - tot) > 1e-12 * max(tot, 1.0):
+                raise Violation("range_histogram %r (dtype %s, total %r) rebinned to %s holds %r cycles"
+                                % (list(h1.values), h1.dtype, tot, "%d bins" % target if isinstance(target, int) else fine, float(rb.sum())),
+                                bucket="histogram:then_rebin_total")
+        ctx.label("range_histogram_then_rebin")
     if case["weights"] == "weighted":
         ctx.label("weighted_not_asserted")
         if abs(float(h1.sum()) - float(df["cycles"].sum())) > 1e-9 and float(h1.sum()) <= n:
@@ -955,6 +1008,9 @@ def _rebin_cases(draw, tier):
         ncls *= len(e) - 1
     counts = draw(st.lists(st.one_of(st.sampled_from([0.0, 1.0, 10.0]), st.integers(0, 10**6).map(float), st.floats(0.0, 1e6, allow_nan=False)),
                            min_size=ncls, max_size=ncls))
+    int_counts = draw(st.integers(0, 2)) == 0
+    if int_counts:
+        counts = draw(st.lists(st.one_of(st.sampled_from([0.0, 1.0, 3.0, 5.0]), st.integers(0, 10**4).map(float)), min_size=ncls, max_size=ncls))
     gaps = dims == 1 and len(src[0]) > 3 and draw(st.integers(0, 4)) == 0
     drop = draw(st.integers(1, len(src[0]) - 3)) if gaps else None
     # a second, finer histogram whose classes lie inside the classes of the first one: what combine_histogram() returns for
@@ -974,7 +1030,7 @@ def _rebin_cases(draw, tier):
                                min_size=len(fine) - 1, max_size=len(fine) - 1))
         nested = {"edges": fine, "counts": fcounts, "via": draw(st.sampled_from(["combine", "combine", "concat"]))}
     return {"dims": dims, "source": src, "target1": tg1, "target2": tg2, "kinds": kinds, "counts": counts, "nested": nested,
-            "target_level_order": draw(st.sampled_from(["same", "swapped", "swapped"])), "repeat": draw(st.booleans()),
+            "target_level_order": draw(st.sampled_from(["same", "swapped", "swapped"])), "repeat": draw(st.booleans()), "int_counts": int_counts,
             "closed": draw(st.sampled_from(["right", "right", "left"])), "nan_default": draw(st.sampled_from([False, False, True])),
             "drop_class": drop, "binning_as_multiindex": draw(st.sampled_from([True, True, False])),
             # a histogram is a mapping class -> count: its rows may be listed in any order (sort_values, concat, ...)
@@ -1004,14 +1060,18 @@ def rebin_conserves(case, ctx):
         idx = _ii(case["source"][0], closed, "range")
     else:
         idx = pd.MultiIndex.from_product([_ii(e, closed) for e in case["source"]], names=names)
-    h = pd.Series(np.array(case["counts"], dtype=float), index=idx, name="cycles")
+    cnts = np.array(case["counts"], dtype=float)
+    if case.get("int_counts") and all(float(c).is_integer() for c in case["counts"]):
+        cnts = cnts.astype(np.int64)         # what numpy.histogram / range_histogram() deliver
+        ctx.label("int64_counts")
+    h = pd.Series(cnts, index=idx, name="cycles")
     if case["drop_class"] is not None:
         h = h.drop(h.index[case["drop_class"]])
         ctx.label("source_with_gap")
     nested = case.get("nested")
     if nested:
         from pylife.utils.histogram import combine_histogram
-        fine = pd.Series(np.array(nested["counts"], dtype=float), index=_ii(nested["edges"], closed, "range"), name="cycles")
+        fine = pd.Series(np.array(nested["counts"], dtype=float).astype(h.dtype), index=_ii(nested["edges"], closed, "range"), name="cycles")
         grand = float(h.sum()) + float(fine.sum())
         if nested["via"] == "combine":
             h = combine_histogram([h, fine])
